@@ -288,6 +288,8 @@ func runC17(p *core.Prog, r *core.Report, tier string) {
 	r.Floor("fields decided by single-root", unlocked, 1)
 
 	c17Publish(p, r, la, isCtor)
+	nsw := checkFilteredSwap(p, r, la, "C17.a3", p.SrcFuncs(), isCtor)
+	r.Count("filtered-copy swaps of shared maps", nsw)
 	c17ReceiverPure(p, r, la, isCtor)
 	c17FreshProposerConfig(p, r)
 	c17FanOut(p, r, la)
@@ -885,4 +887,75 @@ func c17FanOut(p *core.Prog, r *core.Report, la *core.LockAnalysis) {
 	r.Count("collections shared by fan-out instances", nshared)
 	r.Floor("fan-out goroutine bodies", nb, 20)
 	r.Floor("collections shared by fan-out instances", nshared, 3)
+}
+
+// checkFilteredSwap: a function that ranges over the map held in a shared object's field and then
+// stores another map into that field (the filter-and-swap idiom) must hold the owner's write lock
+// continuously from the range to the store; otherwise an insert made by another goroutine between
+// the scan and the swap is silently lost. Returns the number of swaps examined.
+func checkFilteredSwap(p *core.Prog, r *core.Report, la *core.LockAnalysis, rule string, fns []*ssa.Function, skip func(*ssa.Function) bool) int {
+	n := 0
+	for _, fn := range fns {
+		if skip != nil && skip(fn) {
+			continue
+		}
+		var ranges []core.FieldAccess
+		var stores []core.FieldAccess
+		for _, a := range core.FieldAccesses(fn) {
+			if _, fresh := a.Base.(*ssa.Alloc); fresh || !sharedOwner(a.Base.Type()) {
+				continue
+			}
+			if _, isMap := a.Type.Underlying().(*types.Map); !isMap {
+				continue
+			}
+			switch a.Kind {
+			case "map-range":
+				ranges = append(ranges, a)
+			case "store":
+				stores = append(stores, a)
+			}
+		}
+		held := la.HeldAt(fn)
+		for _, st := range stores {
+			for _, rg := range ranges {
+				if rg.Field != st.Field || !reachableAfter(rg.Instr, st.Instr) {
+					continue
+				}
+				n++
+				hasW := func(in ssa.Instruction) bool {
+					for l := range held[in] {
+						if !l.Read && l.Field.Owner == st.Field.Owner {
+							return true
+						}
+					}
+					return false
+				}
+				var gap ssa.Instruction
+				if !hasW(rg.Instr) {
+					gap = rg.Instr
+				}
+				if gap == nil {
+					core.EachInstr(fn, func(in ssa.Instruction) {
+						if gap != nil || hasW(in) {
+							return
+						}
+						if _, isDbg := in.(*ssa.DebugRef); isDbg {
+							return
+						}
+						if reachableAfter(rg.Instr, in) && reachableAfter(in, st.Instr) {
+							gap = in
+						}
+					})
+				}
+				key := fmt.Sprintf("%s|%s|filter-and-swap", st.Field, core.FnKey(fn))
+				if gap == nil {
+					r.Hold(rule, key, p.Pos(st.Instr.Pos()), "the scan of the map and the store of its replacement are in one write-locked critical section")
+				} else {
+					r.Violate(rule, key, p.Pos(st.Instr.Pos()),
+						fmt.Sprintf("%s is scanned at %s and replaced at %s, but the owner's write lock is not held at %s in between: an entry inserted by another goroutine after the scan is lost by the swap", st.Field, p.Pos(rg.Instr.Pos()), p.Pos(st.Instr.Pos()), p.Pos(gap.Pos())))
+				}
+			}
+		}
+	}
+	return n
 }
